@@ -1,7 +1,7 @@
 (* Props/C09.v — Pauli primitives agree with the Pauli group.
    Only statements closed by `exact`; the lemmas live in Core/. *)
 From Coq Require Import Arith List Bool Lia Sorting.Sorted.
-From QV Require Import Core.Bits Core.Pauli Core.Symp Core.Enum Core.Pack.
+From QV Require Import Core.Bits Core.Pauli Core.Symp Core.SympShape Core.Enum Core.Pack.
 Import ListNotations.
 
 (* string <-> bsf is a bijection, singles and lists *)
@@ -38,6 +38,31 @@ Theorem c09_bsp_shapes_mm : forall A b m i j, i < length A -> j < m ->
   nth j (nth i (bsp_mm A b m) []) false = bsp (nth i A []) (col j b).
 Proof. exact bsp_mm_nth. Qed.
 
+(* the SHAPE of the stacked forms: one entry per (operator of A, operator of B), whatever the entries *)
+Theorem c09_bsp_result_shape_vm : forall a b m, length (bsp_vm a b m) = m.
+Proof. exact bsp_vm_length. Qed.
+Theorem c09_bsp_result_shape_mv : forall A b, length (bsp_mv A b) = length A.
+Proof. exact bsp_mv_length. Qed.
+Theorem c09_bsp_result_shape_mm : forall A b m,
+  length (bsp_mm A b m) = length A /\ Forall (fun r => length r = m) (bsp_mm A b m).
+Proof. exact bsp_mm_shape. Qed.
+(* degenerate operands: every stacked operator the identity gives the zero array of the FULL shape *)
+Theorem c09_bsp_identity_rhs : forall A b m, all_zero_rows b ->
+  bsp_mm A b m = repeat (zeros m) (length A) /\ (forall a, bsp_vm a b m = zeros m).
+Proof. exact bsp_identity_rhs. Qed.
+Theorem c09_bsp_identity_lhs : forall A b m, all_zero_rows A ->
+  bsp_mm A b m = repeat (zeros m) (length A) /\ (forall v, bsp_mv A v = zeros (length A)).
+Proof. exact bsp_identity_lhs. Qed.
+Theorem c09_bsp_identity_vector : forall a b, is_zero a = true \/ is_zero b = true -> bsp a b = false.
+Proof. exact bsp_identity_vector. Qed.
+(* bilinearity of the stacked forms *)
+Theorem c09_bsp_stacked_bilinear_r : forall A b c, length b = length c ->
+  bsp_mv A (xorv b c) = xorv (bsp_mv A b) (bsp_mv A c).
+Proof. exact bsp_mv_linear_r. Qed.
+Theorem c09_bsp_stacked_bilinear_l : forall a a' b m, length a = length a' ->
+  bsp_vm (xorv a a') b m = xorv (bsp_vm a b m) (bsp_vm a' b m).
+Proof. exact bsp_vm_linear_l. Qed.
+
 (* weights count the non-identity factors *)
 Theorem c09_weight : forall s, bsf_wt (to_bsf s) = pauli_wt s.
 Proof. exact bsf_wt_to_bsf. Qed.
@@ -65,6 +90,12 @@ Proof. exact pack_injective. Qed.
 Example c09_ex_commutation : bsp (to_bsf [pX;pI;pZ;pI;pY]) (to_bsf [pY;pY;pI;pI;pX]) = anticommutes [pX;pI;pZ;pI;pY] [pY;pY;pI;pI;pX]
   /\ anticommutes [pX;pI;pZ;pI;pY] [pY;pY;pI;pI;pX] = false /\ anticommutes [pX;pZ] [pZ;pI] = true.
 Proof. vm_compute. auto. Qed.
+Example c09_ex_identity_batch : (* two stabilizers against a batch of three trivial errors: a 2 x 3 matrix of zeros *)
+  bsp_mm [[true;false;false;true];[false;true;true;false]] [[false;false;false];[false;false;false];[false;false;false];[false;false;false]] 3
+  = [[false;false;false];[false;false;false]]
+  /\ bsp_vm [true;false;false;true] [[false];[false];[false];[false]] 1 = [false]
+  /\ bsp_mm [[true;true]] [[false];[true]] 1 = [[true]].
+Proof. vm_compute. auto. Qed.
 Example c09_ex_ipauli : length (ipauli 4 1 3) = 4*3 + 6*9 + 4*27 /\ In [pI;pY;pI;pZ] (ipauli 4 1 3).
 Proof. vm_compute. intuition. Qed.
 Example c09_ex_pack : pack [true;false;true;true;false;false;false;false;true] =
@@ -81,3 +112,7 @@ Print Assumptions c09_weight. Print Assumptions c09_weight_rows.
 Print Assumptions c09_ipauli_complete. Print Assumptions c09_ipauli_nodup.
 Print Assumptions c09_ipauli_sorted. Print Assumptions c09_ibsf_nodup.
 Print Assumptions c09_pack_roundtrip. Print Assumptions c09_pack_injective.
+Print Assumptions c09_bsp_result_shape_vm. Print Assumptions c09_bsp_result_shape_mv.
+Print Assumptions c09_bsp_result_shape_mm. Print Assumptions c09_bsp_identity_rhs.
+Print Assumptions c09_bsp_identity_lhs. Print Assumptions c09_bsp_identity_vector.
+Print Assumptions c09_bsp_stacked_bilinear_r. Print Assumptions c09_bsp_stacked_bilinear_l.
